@@ -155,7 +155,10 @@ for ln in open('/verif/.work/confirm_results.txt'):
     m = re.match(r'(C\d\d-\w): demo-clean=\[(.*?)\] demo-with-patch=\[(.*?)\] suite-with-patch=\[(.*)\]\s*$', ln)
     if m:
         res[m.group(1)] = m.groups()[1:]
+RETIRED = set(os.listdir('/verif/seeded/retired')) if os.path.isdir('/verif/seeded/retired') else set()
 for sid, (clean, mut, suite) in sorted(res.items()):
+    if sid in RETIRED:
+        continue  # neutralised by a later repair of pion/ice (see seeded/retired/README.md)
     ok = clean.startswith('ok') and 'FAIL' in mut and ('FAIL' not in suite.split('||')[0] or re.search(r'retry-alone\([^)]*\)=\[ok', suite))
     src = '/tmp/seed/out/' + sid
     dst = '/verif/seeded/' + sid
